@@ -57,6 +57,10 @@ def main():
 
     listed, unlisted = [], []
     seen = set()
+    ctx.failures = [vlib.clean(f) for f in ctx.failures]
+    ctx.samples = vlib.clean(ctx.samples)
+    ctx.extra = vlib.clean(ctx.extra)
+    ctx.dist = vlib.clean(ctx.dist)
     for f in ctx.failures:
         if f["key"] in seen:
             continue
